@@ -153,7 +153,7 @@ def plan(S, prop, mode, tier, avoid):
         scale = base.get("crad", 30.0)
         ops.append({"k": "build", "m": m, "set": base, "depth": None, "c": c})
         radii = []
-        nmatch = r.randrange(2, 7)
+        nmatch = r.randrange(2, 7) if not (tier == "thorough" and chance(r, 0.12)) else r.randrange(7, 16)
         for j in range(nmatch):
             rk = wpick(r, [("scaled", 6), ("zero", 0.7), ("tiny", 1), ("big", 1), ("all", 0.5)])
             if rk == "scaled":
